@@ -1,26 +1,60 @@
+// fmon runs one monitor shard: fmon -prop C01 -tier quick -seed 1 -shard 0 -nshards 16 -out file
 package main
 
 import (
+	"flag"
 	"fmt"
 	"os"
-	"time"
+	"runtime/debug"
+	"sort"
 
-	"github.com/anishathalye/porcupine"
-	"github.com/ory/fosite"
-	"github.com/ory/fosite/compose"
-	"github.com/ory/fosite/storage"
-	"crypto/rsa"
-	"crypto/rand"
+	"fverif/mon"
+	"fverif/run"
 )
 
 func main() {
-	_ = porcupine.Ok
-	k, _ := rsa.GenerateKey(rand.Reader, 2048)
-	p := compose.ComposeAllEnabled(&fosite.Config{GlobalSecret: []byte("0123456789012345678901234567890123456789")}, storage.NewMemoryStore(), k)
-	_ = p
-	t0 := time.Now()
-	time.Sleep(36 * time.Hour)
-	f, _ := os.Create("/tmp/fmon_probe.txt")
-	fmt.Fprintf(f, "t0=%v now=%v\n", t0, time.Now())
-	f.Close()
+	prop := flag.String("prop", "", "monitor name")
+	tier := flag.String("tier", "quick", "quick|thorough")
+	seed := flag.Int64("seed", 1, "seed")
+	shard := flag.Int("shard", 0, "shard index")
+	nshards := flag.Int("nshards", 1, "number of shards")
+	out := flag.String("out", "", "result file")
+	only := flag.String("only", "", "run only this case id (replay)")
+	list := flag.Bool("list", false, "list monitors")
+	flag.Parse()
+	if *list {
+		var ks []string
+		for k := range mon.Registry {
+			ks = append(ks, k)
+		}
+		sort.Strings(ks)
+		for _, k := range ks {
+			fmt.Println(k)
+		}
+		return
+	}
+	f, ok := mon.Registry[*prop]
+	if !ok {
+		fmt.Fprintln(os.Stderr, "unknown monitor", *prop)
+		os.Exit(2)
+	}
+	c := run.New(*prop, *tier, *seed, *shard, *nshards)
+	c.Only = *only
+	code := 0
+	func() {
+		defer func() {
+			if r := recover(); r != nil {
+				c.Inconcl(fmt.Sprintf("panic in monitor process: %v\n%s", r, debug.Stack()))
+				code = 4
+			}
+		}()
+		f(c)
+	}()
+	if *out != "" {
+		if err := c.Write(*out, code == 0); err != nil {
+			fmt.Fprintln(os.Stderr, "write:", err)
+			os.Exit(2)
+		}
+	}
+	os.Exit(code)
 }
